@@ -1270,6 +1270,57 @@ def check_fit_result(kind, names, before, nz, ret, skip, x, add, case, stats, rn
         stats["ml_checked:" + tag] = stats.get("ml_checked:" + tag, 0) + 1
 
 
+def search_vector_pipeline(ctx, rng, add):
+    """vector-valued fields (generator 'VectorField') with per-component mean / trend and a normalizer: the output is
+    trend_c + denormalize(raw_c + mean_c) per component c, and a transformation applied with process=True acts on
+    normalize(field - trend) - mean (mean kept inside when keep_mean=True) and is mapped back the same way — structured and unstructured."""
+    import gstools as gs
+    ev = 0
+    f = lambda x: 0.3 * x ** 3 + x            # noqa: E731  (strictly increasing, not the identity)
+    for t in range(ctx.scale(16, 120)):
+        dim = int(rng.randint(2, 4))
+        model = gs.Gaussian(dim=dim, var=1.2, len_scale=2.0)
+        mkind, tkind = ["none", "scalar", "vector"][int(rng.randint(3))], ["none", "scalar", "vector"][int(rng.randint(3))]
+        mean = {"none": None, "scalar": 0.7, "vector": tuple(float(v) for v in rng.uniform(-2, 2, dim))}[mkind]
+        trend = {"none": None, "scalar": -0.4, "vector": tuple(float(v) for v in rng.uniform(-2, 2, dim))}[tkind]
+        nkind = ["none", "YeoJohnson", "Modulus"][int(rng.randint(3))]
+        mk_norm = lambda: None if nkind == "none" else getattr(gs.normalizer, nkind)(lmbda=0.6)   # noqa: E731
+        seed = int(rng.randint(1, 10 ** 6))
+        mesh = "structured" if rng.rand() < 0.4 else "unstructured"
+        pos = [np.sort(rng.uniform(0, 6, int(rng.randint(2, 4)))) for _ in range(dim)] if mesh == "structured" else rng.uniform(0, 6, size=(dim, 6))
+        case = dict(dim=dim, mean=mean, trend=trend, normalizer=nkind, seed=seed, mesh_type=mesh)
+        try:
+            with warnings.catch_warnings():
+                warnings.simplefilter("ignore")
+                kw = dict(generator="VectorField", seed=seed, mode_no=16)
+                srf = gs.SRF(model, mean=mean, trend=trend, normalizer=mk_norm(), **kw)
+                out = np.asarray(srf(pos, mesh_type=mesh), dtype=float)
+                raw = np.asarray(gs.SRF(model, **kw)(pos, mesh_type=mesh), dtype=float)      # plain raw field: mean 0, no trend, no normalizer
+                shp = (dim,) + (1,) * (raw.ndim - 1)
+                mv = np.zeros(shp) if mean is None else np.reshape(np.broadcast_to(np.asarray(mean, dtype=float), (dim,)), shp)
+                tv = np.zeros(shp) if trend is None else np.reshape(np.broadcast_to(np.asarray(trend, dtype=float), (dim,)), shp)
+                den = (lambda a: a) if nkind == "none" else mk_norm().denormalize
+                want = tv + den(raw + mv)
+                ev += 1
+                if out.shape != want.shape or not np.allclose(out, want, rtol=1e-12, atol=1e-12, equal_nan=True):
+                    add("api:vector-field:pipeline", "vector SRF output != trend_c + denormalize(raw_c + mean_c) per component", case)
+                    continue
+                for keep in (True, False):
+                    got = np.asarray(srf.transform("function", function=f, process=True, keep_mean=keep, store="t_keep" if keep else "t_drop"), dtype=float)
+                    want_t = tv + den(f(raw + mv)) if keep else tv + den(f(raw) + mv)
+                    ev += 1
+                    if got.shape != want_t.shape or not np.allclose(got, want_t, rtol=1e-11, atol=1e-11, equal_nan=True):
+                        add("api:vector-field:processed-transform",
+                            f"Field.transform(function, process=True, keep_mean={keep}) on a vector field is not trend_c + denormalize(f(normalize(field_c - trend_c)"
+                            + (")" if keep else " - mean_c) + mean_c") + ") per component", dict(case, keep_mean=keep))
+                        break
+                if not np.allclose(np.asarray(srf["field"], dtype=float), want, rtol=1e-12, atol=1e-12, equal_nan=True):
+                    add("api:vector-field:source-changed", "the stored source field changed when a processed transformation was stored under another name", case)
+        except Exception as ex:
+            add("api:vector-field:exception", f"{type(ex).__name__}: {ex}", case)
+    return ev
+
+
 def search_fit(ctx, rng, add, deep):
     """real optimiser: every class x every subset of skipped names x start parameters x optimiser keyword arguments,
     plus the constructor (`data=`), remove_trend_norm_mean(fit_normalizer=True) and Krige(fit_normalizer=True)"""
@@ -1727,6 +1778,7 @@ def search(ctx, deep=False):
             add("api:pipeline:exception", f"{type(ex).__name__}: {ex}", case)
     # --- every field class: the pipeline by hand around an object without mean / normalizer / trend
     ev += search_class_pipeline(ctx, np.random.RandomState(ctx.seed + 1820), add, deep)
+    ev += search_vector_pipeline(ctx, np.random.RandomState(ctx.seed + 1830), add)
     # --- replay of the Lean witness `norm_denorm_full_false` on the implementation (observation, see final report)
     with warnings.catch_warnings(), np.errstate(all="ignore"):
         warnings.simplefilter("ignore")
